@@ -37,6 +37,9 @@ claim("C16", "exact rational polynomial normal forms (log-linear slope vs ln10/2
 claim("C19", "construct-set analysis + CFG dominance of Ok-returns and stores by normalised success edges of the validating calls (check-before-assign), over rustc MIR",
       "Sound static decision that VoiceSet/Weights can only be built by their validating constructors, that VoiceSet::new rejects empty lists and any metadata mismatch (global, stream count, per-stream; derived PartialEq), that Weights::new accepts only sums within 1e-6 of 1, and that each weight setter's single store is dominated by the success edges of both the sum and the length check - so a rejected update executes no store, for every history of updates.")
 
+claim("C02", "write-set, dominance/post-dominance and effect-freedom rules on the step function's CFG + exact polynomial identities on the batch loop's buffer size and slice offset + parameter-role inference, over rustc MIR",
+      "Sound static decision that the frame cursor advances exactly once per synthesized frame, that the exhausted path returns 0 and has no effect, that the three stream arguments use the one cursor value in the right roles, that the batch is a loop of steps whose chunks tile the buffer exactly (o(s)=0, o(k+1)-o(k)=f, B=o(L)), and that all cross-frame state is owned by the generator. These imply chunk concatenation = one-shot output and finish = remaining suffix for every call history and buffer size.")
+
 
 def main():
     props = [json.loads(l) for l in open(os.path.join(VERIF, "properties.jsonl"))]
